@@ -383,6 +383,8 @@ def run_asgi(prefix, kind, n_items, raise_at, gate_sends, slow_close, with_disco
                         raise Boom(i)
                     obs["yielded"].append(i)
                     yield (({} if i == empty_at else {"data": str(i)}) if kind == "sse" else (b"" if i == empty_at else b"%d;" % i))
+                if producer == "idle":
+                    await env.gate("zz-idle")  # a producer that has nothing more to say for a long time: never delivered
                 await env.gate("pend")
                 if raise_at == n_items:
                     raise Boom("end")
@@ -449,7 +451,7 @@ def run_asgi(prefix, kind, n_items, raise_at, gate_sends, slow_close, with_disco
                 nsend[0] += 1
                 await env.gate(f"s{nsend[0]:02d}")
 
-        g = gen() if producer == "agen" else AIter()
+        g = gen() if producer in ("agen", "idle") else AIter()
         resp = AR.SendEventResponse(g, ping_interval=10) if kind == "sse" else AR.StreamResponse(g)
         task = s.loop.create_task(resp({"type": "http", "method": "GET", "headers": []}, receive, send))
         loop = s.loop
@@ -465,7 +467,7 @@ def run_asgi(prefix, kind, n_items, raise_at, gate_sends, slow_close, with_disco
             if loop._ready:
                 opts.append(("run", None))
             for name in env.names():
-                if name == "recv-wait":
+                if name in ("recv-wait", "zz-idle"):
                     continue
                 opts.append(("env", name))
             if with_disconnect and not srv["gone"]:
@@ -500,7 +502,7 @@ def run_asgi(prefix, kind, n_items, raise_at, gate_sends, slow_close, with_disco
                     obs["post_disc_timers"] += 1
                 loop.fire_timer()
             steps += 1
-            if steps > 4000:
+            if steps > (300 if producer == "idle" else 4000):
                 stuck = "horizon"
                 break
         obs["stuck"] = stuck
@@ -522,10 +524,10 @@ def run_asgi(prefix, kind, n_items, raise_at, gate_sends, slow_close, with_disco
         obs.update(q)
         try:
             obs["gen_started"] = obs["enter"] > 0
-            obs["gen_state"] = "closed" if producer != "agen" or g.ag_frame is None else ("running" if g.ag_running else "suspended-or-created")
+            obs["gen_state"] = "closed" if producer not in ("agen", "idle") or g.ag_frame is None else ("running" if g.ag_running else "suspended-or-created")
         except Exception:
             obs["gen_state"] = "?"
-        if producer != "agen":
+        if producer not in ("agen", "idle"):
             g.aclose = None  # (break the cycle through the bound method's closure for the collector)
     return Execution(choices, points, obs)
 
@@ -642,6 +644,14 @@ def judge_asgi(o, kind, n_items, raise_at, with_disconnect, slow_close, empty_at
     p = []
     if producer == "aiter-raises":
         raise_at = -1
+    if producer == "idle":
+        if o["disc_event_at"] is None:
+            return []  # nobody left and the producer is silent: the stream simply stays open (pings go on)
+        if o["stuck"]:
+            return [f"STUCK ({o['stuck']}): the client has left, the producer is silent, ping timers keep firing, but the call does not return; trace tail {o['trace'][-8:]}"]
+        if o["post_disc_timers"] > 2:
+            return [f"{o['post_disc_timers']} ping intervals passed after the disconnect before the call returned"]
+        return []
     if o["stuck"]:
         return [f"STUCK ({o['stuck']}): the response call never returned although every event was delivered; trace {o['trace'][-12:]}"]
     if o["pending_tasks"]:
@@ -797,6 +807,8 @@ def asgi_extra_configs(tier):
                     if tier == "thorough":
                         out.append(((kind, n, None, False, True, True, 1, None), producer, k))
             out.append(((kind, 1, 0, False, False, False, 1, None), producer, 0))
+    for n in (0, 1):
+        out.append((("sse", n, None, False, False, True, 1, None), "idle", None))  # a silent producer and a client that leaves
     return out
 
 
